@@ -179,3 +179,10 @@ func (t *Tape) Absorb(rec []uint32) {
 		t.pos += len(rec)
 	}
 }
+
+// State / SetState expose the PRNG state so that a sub-source with the same
+// generator (simrt.SchedTape) can continue the very same stream: the raw
+// stream of a seed (RawTape) then also covers the schedule draws, which is what
+// lets a run whose process died be replayed exactly.
+func (t *Tape) State() uint64     { return t.state }
+func (t *Tape) SetState(s uint64) { t.state = s }
